@@ -33,6 +33,8 @@ def env(extra=None, hashseed="0"):
     e.pop("PYTHONPATH", None)
     if extra:
         e.update(extra)
+    if os.environ.get("VERIF_REPO_SRC"):  # background runs on a snapshot of the repository
+        e["PYTHONPATH"] = os.environ["VERIF_REPO_SRC"] + (":" + e["PYTHONPATH"] if e.get("PYTHONPATH") else "")
     return e
 
 
